@@ -360,10 +360,10 @@ func ruleC06_1(c *Ctx) {
 			goto errorExits
 		}
 		{
-		// the two updates are on the two edges of the presence test
-		excl := !ups[0].Instr.Block().Dominates(ups[1].Instr.Block()) && !ups[1].Instr.Block().Dominates(ups[0].Instr.Block()) &&
-			!reachableBlocks(ups[0].Instr.Block(), func(b *ssa.BasicBlock) bool { return b == loop.Header })[ups[1].Instr.Block()]
-		c.check(excl, tag+": one group update per iteration", c.at(ups[0].Instr), "append and create are on exclusive branches", "both group updates can run in one iteration: a key is filed twice")
+			// the two updates are on the two edges of the presence test
+			excl := !ups[0].Instr.Block().Dominates(ups[1].Instr.Block()) && !ups[1].Instr.Block().Dominates(ups[0].Instr.Block()) &&
+				!reachableBlocks(ups[0].Instr.Block(), func(b *ssa.BasicBlock) bool { return b == loop.Header })[ups[1].Instr.Block()]
+			c.check(excl, tag+": one group update per iteration", c.at(ups[0].Instr), "append and create are on exclusive branches", "both group updates can run in one iteration: a key is filed twice")
 		}
 	errorExits:
 		// (e) error exits leave before anything is recorded
